@@ -2,7 +2,7 @@
 // runs each on a machine that only uses the common feature subset, prints one digest per case.
 //   usage: hv_feat --exec <corpus> --out <digests>      corpus = [u16 length][bytes]...
 //          hv_feat --replay <case>                      prints the readable trace of one case
-// Feature macros (HFSM2_ENABLE_*, HFSM2_DISABLE_TYPEINDEX) and HVF_PAYLOAD / HVF_SUBST / HVF_TASKCAP / HVF_MANUAL come from -D.
+// Feature macros (HFSM2_ENABLE_*, HFSM2_DISABLE_TYPEINDEX) and HVF_PAYLOAD / HVF_SUBST / HVF_TASKCAP / HVF_MANUAL / HVF_BOTTOMUP come from -D.
 // HVF_USE_PLANS (only in builds with HFSM2_ENABLE_PLANS): the program also edits plans and reports success/failure; such builds are only
 // compared with each other (payload type, task capacity, other features and flavour vary inside the group).
 #ifdef HV_DEV_FLAVOUR
@@ -27,6 +27,9 @@ struct Ctx;
 using Cfg0 = hfsm2::Config::ContextT<Ctx&>
 #ifdef HVF_MANUAL
 	::ManualActivation
+#endif
+#ifdef HVF_BOTTOMUP
+	::BottomUpReactions
 #endif
 	::SubstitutionLimitN<HVF_SUBST>
 #if defined(HFSM2_ENABLE_PLANS) && defined(HVF_TASKCAP)
@@ -79,6 +82,8 @@ struct St : FSM::State {
 	void preUpdate(FullControl& c) noexcept { phase(c, 4); }
 	void update(FullControl& c) noexcept { phase(c, 2); }
 	void postUpdate(FullControl& c) noexcept { phase(c, 5); }
+	void preReact(const Ev&, EventControl& c) noexcept { c.context().rec(13, N); }
+	void postReact(const Ev&, EventControl& c) noexcept { c.context().rec(14, N); }
 	void react(const Ev&, EventControl& c) noexcept { Ctx& x = c.context(); x.rec(3, N); if (Script* s = find(x, N, 3)) { if (s->action & 2) request(c, s->type, s->dest); if (s->action & 4) c.consumeEvent(); } }
 };
 
